@@ -4,6 +4,7 @@
 From Coq Require Import NArith ZArith List Bool.
 From Mpc Require Import Gen.Consts Base.Label OT.Iknp OT.IknpProof OT.Cot OT.CotProof OT.Co OT.CoProof OT.Rsa OT.RsaProof.
 Import ListNotations.
+From Mpc Require Base.Codec OT.LabelWire OT.LabelWireProof.
 From Mpc Require Gen.State Base.StateExpected Base.StateCheck Base.StatePkgs.
 Local Open Scope nat_scope.
 
@@ -164,3 +165,104 @@ Theorem C06_state_inventory :
     Mpc.Base.StatePkgs.pkgs_C06 = true.
 Proof. vm_compute. reflexivity. Qed.
 Print Assumptions C06_state_inventory.
+
+(* ot/label.go, function by function on the two uint64 words (OT/LabelWire.v),
+   against the 128-bit number [val l = D0*2^64 + D1] that every other model of
+   this development uses for a label.  For ALL labels a b with both words below
+   2^64, every uint32 tweak t and either flag s: Xor / And are the bitwise
+   operations of the numbers, Mul2 / Mul4 are doubling / quadrupling modulo
+   2^128 (the carry from D1 into D0 included), S is bit 127, SetS sets exactly
+   that bit and S reads back what SetS wrote, Equal is equality of the numbers
+   (and of the records), NewTweak is the tweak in the low word; every result is
+   again a pair of 64-bit words. *)
+Theorem C06_label_ops :
+  forall (a b : Mpc.OT.LabelWire.Label) (t : N) (s : bool),
+  Mpc.OT.LabelWire.wf a -> Mpc.OT.LabelWire.wf b ->
+  (Mpc.OT.LabelWire.wf (Mpc.OT.LabelWire.Xor a b) /\
+   Mpc.OT.LabelWire.val (Mpc.OT.LabelWire.Xor a b) = N.lxor (Mpc.OT.LabelWire.val a) (Mpc.OT.LabelWire.val b)) /\
+  (Mpc.OT.LabelWire.wf (Mpc.OT.LabelWire.And a b) /\
+   Mpc.OT.LabelWire.val (Mpc.OT.LabelWire.And a b) = N.land (Mpc.OT.LabelWire.val a) (Mpc.OT.LabelWire.val b)) /\
+  (Mpc.OT.LabelWire.wf (Mpc.OT.LabelWire.Mul2 a) /\
+   Mpc.OT.LabelWire.val (Mpc.OT.LabelWire.Mul2 a) = (Mpc.OT.LabelWire.val a * 2) mod 2 ^ 128)%N /\
+  (Mpc.OT.LabelWire.wf (Mpc.OT.LabelWire.Mul4 a) /\
+   Mpc.OT.LabelWire.val (Mpc.OT.LabelWire.Mul4 a) = (Mpc.OT.LabelWire.val a * 4) mod 2 ^ 128)%N /\
+  Mpc.OT.LabelWire.GetS a = N.testbit (Mpc.OT.LabelWire.val a) 127 /\
+  (Mpc.OT.LabelWire.wf (Mpc.OT.LabelWire.SetS a s) /\
+   Mpc.OT.LabelWire.GetS (Mpc.OT.LabelWire.SetS a s) = s) /\
+  Mpc.OT.LabelWire.val (Mpc.OT.LabelWire.SetS a true) = N.lor (Mpc.OT.LabelWire.val a) (2 ^ 127) /\
+  Mpc.OT.LabelWire.Equal a b = (Mpc.OT.LabelWire.val a =? Mpc.OT.LabelWire.val b)%N /\
+  (Mpc.OT.LabelWire.Equal a b = true <-> a = b) /\
+  (Mpc.OT.LabelWire.wf (Mpc.OT.LabelWire.NewTweak t) /\
+   Mpc.OT.LabelWire.val (Mpc.OT.LabelWire.NewTweak t) = t mod 2 ^ 32)%N /\
+  (Mpc.OT.LabelWire.val a < 2 ^ 128)%N.
+Proof. exact Mpc.OT.LabelWireProof.label_ops_spec. Qed.
+Print Assumptions C06_label_ops.
+
+(* Label.Bit (the index convention IKNP uses for Delta.Bit(i)): for every label
+   and every index 0..127 it is the bit [Iknp.lbit] reads from the number
+   (index i < 64 = bit 64+i, otherwise bit i-64); out of range panics (None). *)
+Theorem C06_label_bit :
+  forall (l : Mpc.OT.LabelWire.Label) (i : nat), Mpc.OT.LabelWire.wf l -> i < 128 ->
+  Mpc.OT.LabelWire.Bit l i = Some (lbit (Mpc.OT.LabelWire.val l) i).
+Proof. exact Mpc.OT.LabelWireProof.Bit_lbit. Qed.
+Print Assumptions C06_label_bit.
+
+(* LabelData codecs: for every label GetData writes exactly 16 bytes, they are
+   the big-endian bytes of the number (D0 first), reading them as one
+   big-endian integer gives the number back, and SetData / SetBytes invert
+   GetData / Bytes. *)
+Theorem C06_label_data :
+  forall l : Mpc.OT.LabelWire.Label, Mpc.OT.LabelWire.wf l ->
+  length (Mpc.OT.LabelWire.GetData l) = 16 /\
+  Mpc.OT.LabelWire.GetData l = Mpc.Base.Codec.be 16 (Mpc.OT.LabelWire.val l) /\
+  Mpc.Base.Codec.of_be (Mpc.OT.LabelWire.GetData l) = Mpc.OT.LabelWire.val l /\
+  Mpc.OT.LabelWire.SetData (Mpc.OT.LabelWire.GetData l) = l /\
+  Mpc.OT.LabelWire.SetBytes (Mpc.OT.LabelWire.Bytes l) = l.
+Proof. exact Mpc.OT.LabelWireProof.label_data_spec. Qed.
+Print Assumptions C06_label_data.
+
+(* ... and the other way round: every 16-byte array d is reproduced by GetData
+   after SetData; NewLabel on every random stream s of at least 16 bytes is the
+   label whose data bytes are the first 16 stream bytes in order. *)
+Theorem C06_label_data_inv :
+  forall d s : list N,
+  (length d = 16 -> Forall (fun b => (b < 256)%N) d ->
+   Mpc.OT.LabelWire.wf (Mpc.OT.LabelWire.SetData d) /\
+   Mpc.OT.LabelWire.GetData (Mpc.OT.LabelWire.SetData d) = d) /\
+  (16 <= length s -> Forall (fun b => (b < 256)%N) s ->
+   Mpc.OT.LabelWire.wf (Mpc.OT.LabelWire.NewLabel s) /\
+   Mpc.OT.LabelWire.GetData (Mpc.OT.LabelWire.NewLabel s) = firstn 16 s).
+Proof. exact Mpc.OT.LabelWireProof.label_data_inv. Qed.
+Print Assumptions C06_label_data_inv.
+
+(* Wire format of ot/co.go (CO.InitSender, CO.Send, CO.Receive).  For every
+   curve name, every sender point A, every list of receiver points (any
+   length, coordinates of any size) and every list of ciphertext pairs
+   (128-bit): the sender's SendData payloads are name, Ax, Ay and then 2n
+   payloads of exactly 16 bytes; the receiver's are the 2n coordinates; and the
+   peer's decoders (ReceiveBigInt; copy into LabelData + SetData) return
+   exactly the values that were encoded. *)
+Theorem C06_co_wire_roundtrip :
+  forall (name : list N) (A : N * N) (pts : list (N * N))
+         (cts : list (Mpc.OT.LabelWire.Label * Mpc.OT.LabelWire.Label)),
+  Forall (fun c => Mpc.OT.LabelWire.wf (fst c) /\ Mpc.OT.LabelWire.wf (snd c)) cts ->
+  let s := Mpc.OT.LabelWire.payloads false (Mpc.OT.LabelWire.co_session_msgs name A pts cts) in
+  let r := Mpc.OT.LabelWire.payloads true (Mpc.OT.LabelWire.co_session_msgs name A pts cts) in
+  hd [] s = name /\
+  Mpc.OT.LabelWire.co_decode_A (firstn 2 (skipn 1 s)) = Some A /\
+  Mpc.OT.LabelWire.co_decode_points (length pts) r = Some pts /\
+  Mpc.OT.LabelWire.co_decode_cts (length cts) (skipn 3 s) = Some cts /\
+  length s = 3 + 2 * length cts /\ length r = 2 * length pts /\
+  Forall (fun m => length m = 16) (skipn 3 s).
+Proof. exact Mpc.OT.LabelWireProof.co_wire_roundtrip. Qed.
+Print Assumptions C06_co_wire_roundtrip.
+
+(* Per-index domain separation of ot/co_helpers.go deriveMask: for ALL points
+   (x, y), (x', y') and all uint64 indices id <> id' the SHA-256 inputs
+   x.Bytes() ‖ y.Bytes() ‖ be64(id) differ (the index is recoverable from the
+   last 8 bytes). *)
+Theorem C06_co_mask_index_separation :
+  forall x y x' y' id id' : N, (id < 2 ^ 64)%N -> (id' < 2 ^ 64)%N -> id <> id' ->
+  Mpc.OT.LabelWire.mask_preimage x y id <> Mpc.OT.LabelWire.mask_preimage x' y' id'.
+Proof. exact Mpc.OT.LabelWireProof.mask_preimage_separates. Qed.
+Print Assumptions C06_co_mask_index_separation.
